@@ -149,7 +149,7 @@ def explore(ctx: Ctx):
     lims2 = [(0, 0), (2, 0), (0, 1), (0, 2), (0, 3)]
     cases = []
 
-    def emit(algo, fam, scripts, num_envs, num_steps, ks, gamma=0.5, lam=0.5):
+    def emit(algo, fam, scripts, num_envs, num_steps, ks, gamma=0.5, lam=0.25):
         n0 = len(cases)
         for tab in fam:
             for sc in scripts:
